@@ -494,14 +494,37 @@ func (s *sroa) run() int {
 				return true
 			}
 			si := info.Selections[p]
-			if si == nil || si.Kind() != types.FieldVal || len(si.Index()) != 1 {
-				b.bad = "method or promoted field used"
+			// x.f, or x.g / x.m() promoted from an embedded field of x
+			if si == nil || (si.Kind() == types.FieldVal && len(si.Index()) < 1) || (si.Kind() == types.MethodVal && len(si.Index()) < 2) || si.Kind() == types.MethodExpr {
+				b.bad = "method of the bundle itself used"
 				return true
 			}
 			// &x.f (through any chain of selectors / indexes) lets a field escape
+			// (an index into a slice or map field, or a selection through a pointer
+			// field, leaves the field's own storage: its address is another matter)
+			cur := ast.Expr(p)
+		up:
 			for i := len(stack) - 2; i > 0; i-- {
+				viaPointer := func() bool {
+					tv, ok := info.Types[cur]
+					if !ok {
+						return false
+					}
+					switch tv.Type.Underlying().(type) {
+					case *types.Pointer, *types.Slice, *types.Map:
+						return true
+					}
+					return false
+				}
 				switch a := stack[i-1].(type) {
-				case *ast.SelectorExpr, *ast.IndexExpr, *ast.ParenExpr, *ast.SliceExpr:
+				case *ast.ParenExpr:
+					cur = a
+					continue
+				case *ast.SelectorExpr, *ast.IndexExpr, *ast.SliceExpr:
+					if viaPointer() {
+						break up
+					}
+					cur = a.(ast.Expr)
 					continue
 				case *ast.UnaryExpr:
 					if a.Op == token.AND {
@@ -842,7 +865,31 @@ func (s *sroa) run() int {
 					if v, _ := info.Uses[id].(*types.Var); v != nil {
 						if b := good(v); b != nil {
 							si := info.Selections[x]
-							c.Replace(name(b.cell, si.Index()[0]))
+							var e ast.Expr = name(b.cell, si.Index()[0])
+							// promoted: spell out the path through the embedded fields
+							t := b.cell.st.Field(si.Index()[0]).Type()
+							for k, ix := range si.Index()[1:] {
+								if pt, ok := t.Underlying().(*types.Pointer); ok {
+									t = pt.Elem()
+								}
+								if k == len(si.Index())-2 && si.Kind() == types.MethodVal {
+									break
+								}
+								st, ok := t.Underlying().(*types.Struct)
+								if !ok {
+									break
+								}
+								e = &ast.SelectorExpr{X: e, Sel: ast.NewIdent(st.Field(ix).Name())}
+								t = st.Field(ix).Type()
+							}
+							if len(si.Index()) > 1 {
+								e = &ast.SelectorExpr{X: e, Sel: ast.NewIdent(x.Sel.Name)}
+								// the loop above already appended the last field of a field path
+								if si.Kind() == types.FieldVal {
+									e = e.(*ast.SelectorExpr).X
+								}
+							}
+							c.Replace(e)
 							return false
 						}
 					}
